@@ -445,7 +445,7 @@ class DictDecoder:
             if var.local_name == key:
                 var_is_list = var.list_element or var.tokens
                 is_array = collections.is_array(value)
-                if is_array == var_is_list:
+                if value is None or is_array == var_is_list:
                     return var
             elif var.wrapper == key:
                 if isinstance(value, dict) and var.local_name in value:
